@@ -8,6 +8,17 @@ def main(argv):
         return 2
     if argv[0] == '--setup':
         return vf.setup()
+    if argv[0] == '--all':
+        import json, subprocess
+        tier = argv[1] if len(argv) > 1 else 'quick'
+        man = json.load(open(os.path.join(vf.VERIF, 'MANIFEST.json')))
+        rc = 0
+        for c in man['checks']:
+            p = subprocess.run([os.path.join(vf.VERIF, 'check'), c['property_id'], tier], capture_output=True, text=True)
+            lines = [l for l in p.stdout.splitlines() if l.startswith(('VIOLATION', 'KNOWN-FINDING', c['property_id'] + ' '))]
+            print('\n'.join(l[:160] for l in lines), flush=True)
+            rc = rc or p.returncode
+        return rc
     pid = argv[0]
     seed = int(os.environ.get('VERIF_SEED', '0') or 0)
     if len(argv) >= 3 and argv[1] == '--replay':
